@@ -113,7 +113,8 @@ def code_data_from_json(value: object) -> CodeData:
             tuple(instruction_from_json(i) for i in block) for block in value["blocks"]
         )
     if "type" in value:
-        tp = value["type"]
+        # Copy, so that the JSON value passed in is not modified
+        tp = copy(value["type"])
         if "docstring" in tp:
             tp["docstring"] = string_from_json(tp["docstring"])
         if "args" in tp:
